@@ -12,6 +12,7 @@ import (
 	"strings"
 	"sync"
 	"syscall"
+	"time"
 
 	"github.com/marekgalovic/anndb"
 	"github.com/marekgalovic/anndb/storage/raft"
@@ -24,6 +25,8 @@ import (
 //	VERIF_KILL_AT=<zero|partition|any>:<point>@<k>  SIGKILL this process at the k-th hit of a ready-loop event
 //	                                                (beforeSave, afterSave, applied, beforeSendFollower, afterAdvance,
 //	                                                snapshot.trigger, snapshot.done, snapshotInstalled)
+//	VERIF_KILL_DELAY=<duration>                     the ready-loop that reached the kill point pauses that long before the
+//	                                                signal is sent (other goroutines, e.g. replies on their way out, run on)
 //	VERIF_KILL_ARM=signal                           count the hits only from the first SIGUSR2 on
 //	VERIF_SNAPSHOT_EVERY=<n>                        snapshot + compact a group after every n entries it applied
 //	VERIF_DUMP=<path>                               on SIGUSR1 write partitions, catalogue and address book as JSON
@@ -57,6 +60,7 @@ func verifInstall(server *anndb.Server) {
 		}
 	}
 	snapEvery, _ := strconv.ParseUint(os.Getenv("VERIF_SNAPSHOT_EVERY"), 10, 64)
+	killDelay, _ := time.ParseDuration(os.Getenv("VERIF_KILL_DELAY"))
 
 	if snapEvery > 0 {
 		raft.VerifHooks.SnapC = func(nodeId uint64, groupId uuid.UUID) <-chan uint64 {
@@ -92,6 +96,9 @@ func verifInstall(server *anndb.Server) {
 			mu.Unlock()
 			if kill {
 				fmt.Fprintf(os.Stderr, "VERIF-KILL group=%s point=%s hit=%d\n", groupId, point, killAt)
+				if killDelay > 0 {
+					time.Sleep(killDelay)
+				}
 				syscall.Kill(os.Getpid(), syscall.SIGKILL)
 				select {}
 			}
